@@ -4,8 +4,12 @@
 //!   finalise(...)                           (coordinator side)
 #![allow(dead_code)]
 
+pub mod attack;
 pub mod c01;
+pub mod c02;
+pub mod c03;
 pub mod c10;
+pub mod c12;
 
 use crate::case::Case;
 use crate::coord::{Batch, Stats};
@@ -115,6 +119,9 @@ pub fn run_batch(u: &mut Universe, b: &Batch, st: &mut Stats) {
     match b.check.as_str() {
         "C01" => c01::run(u, b, st),
         "C10" => c10::run(u, b, st),
+        "C02" => c02::run(u, b, st),
+        "C03" => c03::run(u, b, st),
+        "C12" => c12::run(u, b, st),
         other => st.harness_errors.push(format!("unknown check {other}")),
     }
 }
@@ -125,6 +132,18 @@ pub fn run_check(id: &str, tier: &str, seed: u64, jobs: usize) -> i32 {
         "C01" => {
             let res = crate::coord::run_batches(c01::plan(tier, seed), jobs);
             c01::finalise(tier, seed, res)
+        }
+        "C02" => {
+            let res = crate::coord::run_batches(c02::plan(tier, seed), jobs);
+            c02::finalise(tier, seed, res)
+        }
+        "C03" => {
+            let res = crate::coord::run_batches(c03::plan(tier, seed), jobs);
+            c03::finalise(tier, seed, res)
+        }
+        "C12" => {
+            let res = crate::coord::run_batches(c12::plan(tier, seed), jobs);
+            c12::finalise(tier, seed, res)
         }
         "C10" => {
             let probe = crate::coord::run_batches(c10::plan_probe(tier, seed), jobs);
